@@ -86,6 +86,11 @@ def mapf(spec, x, *args, **kwargs):
     return out
 
 
+def shared_map(x, *args, **kwargs):
+    """a plain module-level function shared by several map nodes (spec ('tag', 0))"""
+    return mapf(('tag', 0), x, *args, **kwargs)
+
+
 def pred(spec, x):
     op = spec[0]
     if op == 'wmod':       # keep unless weight % m == r
